@@ -67,7 +67,7 @@ TEXT = {
     ),
     "C12": dict(
         technique="runtime monitor: panic/overflow trap + pointer-provenance monitor over corrupter-generated buffers; ASan, Miri and valgrind memcheck stages",
-        level_text="Exploration: valid files are corrupted field by field with boundary values (systematic sweep and random), by record swaps/duplication, bit flips, string-prefix and UTF-8 damage and random bodies; parse and the whole query set (incl. line 0 and 2^64-1) run under the overflow-checked panic trap; every returned string must be a slice of the buffer or of the query. The same workload runs under AddressSanitizer and Miri (quick and thorough) and valgrind (thorough) to catch out-of-bounds or uninitialised reads that do not panic.",
+        level_text="Exploration: valid files are corrupted field by field with boundary values (systematic sweep and random), by record swaps/duplication, bit flips, string-prefix and UTF-8 damage and random bodies; parse and the whole query set (incl. line 0 and 2^64-1) run under the overflow-checked panic trap; every returned string must be a slice of the buffer or of the query. A valid cache whose one method has 60 000 entries is queried on a 2 MiB-stack thread, also in an unoptimised (debug) build, and a worker that dies inside a monitored call (stack overflow, failed allocation) is reported as a violation. The same workload runs under AddressSanitizer and Miri (quick and thorough) and valgrind (thorough) to catch out-of-bounds or uninitialised reads that do not panic.",
         level_note="Trusted: rustc overflow checks and bounds checks, ASan/Miri/valgrind (each stage must first detect its canary).",
     ),
     "C13": dict(
